@@ -170,27 +170,44 @@ func (e *Engine) getSingle(fr *Frame, c *Ctx, node IfaceV, tok StrV) Value {
 			v, ok := e.mapLookup(c, mv, tok, u.Elem())
 			add(g, mergeV(ok, okT(u.Elem(), v), errT("object has no key ")))
 		case *types.Slice:
-			s, okc := tok.Concrete()
-			if !okc {
-				unsup("getSingle: symbolic slice index token on %v (token len %v)", t, tok.Len.ref())
-			}
-			n := 0
-			for _, ch := range s {
-				if ch < '0' || ch > '9' {
-					n = -1
-					break
-				}
-				n = n*10 + int(ch-'0')
-			}
 			sv := val.(SliceV)
 			var r Value = errT("index out of bounds ")
-			for _, sa := range sv.Alts {
-				if sa.Obj == -1 || n < 0 || n >= sa.Cap {
-					continue
+			if s, okc := tok.Concrete(); okc {
+				n := 0
+				for _, ch := range s {
+					if ch < '0' || ch > '9' {
+						n = -1
+						break
+					}
+					n = n*10 + int(ch-'0')
 				}
-				inb := And(sa.G, Ult(BV(64, uint64(n)), sa.Len))
-				el := e.arr(c, sa.Obj).E[sa.Off+n]
-				r = mergeV(inb, okT(u.Elem(), el), r)
+				if s == "" {
+					n = -1
+				}
+				for _, sa := range sv.Alts {
+					if sa.Obj == -1 || n < 0 || n >= sa.Cap {
+						continue
+					}
+					inb := And(sa.G, Ult(BV(64, uint64(n)), sa.Len))
+					el := e.arr(c, sa.Obj).E[sa.Off+n]
+					r = mergeV(inb, okT(u.Elem(), el), r)
+				}
+			} else {
+				// symbolic token: it designates element n iff it is the canonical decimal rendering of n
+				// (non-canonical renderings such as "01" or "+1", which strconv.Atoi accepts, are treated as errors)
+				for _, sa := range sv.Alts {
+					if sa.Obj == -1 {
+						continue
+					}
+					arr := e.arr(c, sa.Obj)
+					for n := 0; n < sa.Cap && sa.Off+n < len(arr.E); n++ {
+						hit := And(sa.G, eqV(tok, StrC(fmt.Sprint(n))), Ult(BV(64, uint64(n)), sa.Len))
+						if hit.IsFalse() {
+							continue
+						}
+						r = mergeV(hit, okT(u.Elem(), arr.E[sa.Off+n]), r)
+					}
+				}
 			}
 			add(g, r)
 		default:
